@@ -54,6 +54,7 @@ CONSTANTS NSplits, NRec, NOps,
           NKeys,        \* keys 1..NKeys; key k is owned by operator ((k-1) % NOps) + 1
           KeyCode,      \* key of record (sp, idx) = digit ((sp-1)*NRec + idx-1) % KeyDigits of KeyCode in base NKeys, + 1
           KeyDigits,
+          Dev_SnapshotAfterNextRead, \* model self-test only: the split positions are taken one read after the barrier was queued
           MaxLen
 
 VARIABLES cursor, order, cuts, stream, ok,                   \* ghost / observable (ok: the stream clauses held at every Deliver)
@@ -180,10 +181,12 @@ ReadSplit(sp, n) ==
   /\ LIdle /\ ~eoi /\ cursor[sp] + n <= NRec
   /\ LET recs == [i \in 1..n |-> Rec(sp, cursor[sp] + i)]
      IN /\ cursor' = [cursor EXCEPT ![sp] = @ + n]
+        /\ cuts' = IF Dev_SnapshotAfterNextRead /\ cuts # <<>> /\ cuts[Len(cuts)].nread = Len(order)
+                   THEN [cuts EXCEPT ![Len(cuts)].pos = cursor', ![Len(cuts)].nread = Len(order) + n] ELSE cuts
         /\ order' = order \o recs
         /\ LRun(kbatch, karmed, recs, pc)
         /\ Log([a |-> "ReadSplit", sp |-> sp, n |-> n, from |-> cursor[sp], full |-> pc'["c"] = "flush"])
-  /\ UNCHANGED <<cuts, stream, ok, eoi, nbar, nticks, kfires, nkf, ev, klock, bvars, rvars, ovars>>
+  /\ UNCHANGED <<stream, ok, eoi, nbar, nticks, kfires, nkf, ev, klock, bvars, rvars, ovars>>
 
 AllRead == \A s \in Splits : cursor[s] = NRec
 
